@@ -132,6 +132,26 @@ def sequence_enum(tier, seed):
     return cases
 
 
+def micro_bulk(tier, seed):
+    """Many Micro QR symbols with automatic mask: scoring errors of the edge rule show only for rare
+    edge configurations (e.g. a completely dark edge), so volume is needed."""
+    cases = []
+    n = 24000 if tier == 'quick' else 400000
+    for i in range(n):
+        h = stable_hash(seed, 'bulk', i)
+        v = ('M4', 'M4', 'M4', 'M3', 'M2', 'M1')[h % 6]
+        mx = {'M4': 35, 'M3': 23, 'M2': 10, 'M1': 5}[v]
+        ln = 1 + (h >> 8) % mx
+        digits = ''.join('0123456789'[(h >> (12 + 3 * k)) % 10] if k < 6 else '0123456789'[stable_hash(seed, i, k) % 10] for k in range(ln))
+        kw = {'version': v}
+        if v != 'M1' and (h >> 4) % 3:
+            kw['error'] = ('L', 'M', 'Q')[(h >> 6) % (3 if v == 'M4' else 2)]
+        if (h >> 5) % 2:
+            kw['boost_error'] = False
+        cases.append({'fn': 'make', 'content': enc_content(digits), 'kw': kw})
+    return cases
+
+
 def required_labels(tier):
     return ['sequence', 'automatic-mask', 'requested-mask', 'close-race', 'M1', 'M2', 'M3', 'M4', 'v1-9', 'v10-26', 'v27-40']
 
@@ -142,6 +162,8 @@ def phases(tier, seed):
         Enum('auto-all-versions', lambda: auto_enum(tier, seed), exhaustive=False),
         Enum('requested-triples', lambda: requested_enum(tier, seed), exhaustive=(tier == 'thorough'),
              note='(version, level, requested mask) triples'),
+        Enum('micro-bulk', lambda: micro_bulk(tier, seed), exhaustive=False,
+             note='pseudo-random numeric Micro QR symbols (mostly M4) with automatic mask'),
         Enum('sequences', lambda: sequence_enum(tier, seed), exhaustive=False,
              note='Structured Append sequences with every requested mask and the automatic mask'),
         Search('generated', mask_cases(), n),
